@@ -150,6 +150,7 @@ def gen_C09(g, tier):
     # double: polar decomposition over structure classes and condition numbers
     for _ in range(n):
         kind = g.choice(['random', 'hermitian', 'unitary', 'diagonal', 'triangular', 'negdet', 'imagdet', 'illcond', 'nearunitary', 'nearnegdet', 'nearnegdet'])
+        if _ % 4 == 1: kind = 'nearunitary'          # a quarter of the cases: boosts of 1e-14..1e-6 on a scaled unitary matrix
         a = [g.r.uniform(-2, 2) for _ in range(8)]
         if kind == 'hermitian': a = [abs(a[0]) + 3, 0, a[2], a[3], a[2], -a[3], abs(a[6]) + 3, 0]
         elif kind == 'unitary':
